@@ -65,6 +65,21 @@ def generate(L):
         m = re.search(r'"' + h + r'"\s*=>\s*\{\s*if is_rebase_in_progress\(&repo\)\s*\{\s*return 0;\s*\}', rmh)
         if not m:
             raise L.GenError(f"{rel}: {h} no longer returns first thing during a rebase")
+    # which arms of pre-commit call maybe_capture_cherry_pick_pre_commit_state
+    mpc = re.search(r'"pre-commit"\s*=>\s*\{(.*?)\n\s*"post-commit"\s*=>', rmh, re.S)
+    if not mpc:
+        raise L.GenError(f"{rel}: pre-commit arm of run_managed_hook not found")
+    pc = mpc.group(1)
+    i_cp = pc.find("if is_cherry_pick_in_progress(&repo)")
+    i_ret = pc.find("return 0;", i_cp) if i_cp >= 0 else -1
+    i_pre = pc.find("commit_hooks::commit_pre_command_hook")
+    if min(i_cp, i_ret, i_pre) < 0 or not (i_cp < i_ret < i_pre):
+        raise L.GenError(f"{rel}: pre-commit arm: cherry-pick branch / ordinary branch not found in this order")
+    cap = "maybe_capture_cherry_pick_pre_commit_state(&repo);"
+    cp_arm_captures = cap in pc[i_cp:i_ret]
+    ordinary_arm_captures = cap in pc[i_ret:i_pre]
+    if pc.count(cap) != int(cp_arm_captures) + int(ordinary_arm_captures):
+        raise L.GenError(f"{rel}: pre-commit arm captures the cherry-pick state somewhere else")
     if "maybe_restore_stale_rebase_hooks(&repo);" not in rmh or "maybe_finalize_stale_cherry_pick_batch_state(&mut repo);" not in rmh:
         raise L.GenError(f"{rel}: run_managed_hook preamble changed")
     if rmh.find("maybe_restore_stale_rebase_hooks(&repo);") > rmh.find("match hook_name"):
@@ -193,6 +208,8 @@ def generate(L):
         "Definition wrapper_child_sets_skip : bool := true.",
         "Definition skip_guards_managed_part : bool := true.",
         "Definition pull_renames_before_early_exits : bool := " + L.coq_bool(pull_rename_first) + ".",
+        "Definition precommit_cp_arm_captures : bool := " + L.coq_bool(cp_arm_captures) + ".",
+        "Definition precommit_ordinary_arm_captures : bool := " + L.coq_bool(ordinary_arm_captures) + ".",
         "Definition reftx_lookup_on_HEAD : bool := " + L.coq_bool(on_head) + ".",
         "Definition reftx_lookup_on_refs_heads : bool := " + L.coq_bool(on_heads) + ".",
         "Definition rewrite_stash_default_debug : bool := " + m.group(1) + ".",
